@@ -540,12 +540,12 @@ static std::string run_full(const std::string &line, bool leakcheck) {
 }
 
 // slot mode only (histories, threads, differential runs)
-static std::string run_simple(const std::string &line) {
+static std::string run_simple(const std::string &line, bool noslot = false) {
   Ctx c;
   c.tok = split(line);
   callfn f = lookup(c.tok[0]);
   if (!f) return "X\tunknown-function";
-  c.mode = 0; c.slot = NULL;
+  c.mode = noslot ? 1 : 0; c.slot = NULL;
   f(c);
   std::string r = "R\t" + c.result + "\tE\t" + errdesc(c.slot);
   if (c.slot) xrl_error_free(c.slot);
@@ -565,6 +565,29 @@ static std::string run_keep(const std::string &line) {
   std::string r = "R\t" + c.result + "\tE\t" + errdesc(c.slot);
   if (c.slot) kept_errors.push_back({c.slot, errdesc(c.slot)});
   c.reset_args();
+  // every third call once more, this time with a slot that still holds the error object of an earlier call (the caller did not clear it): the
+  // library may warn, but the object in the slot stays the one it was - checked at the end of the history together with all kept errors.
+  // (stderr is diverted for the duration: the warning is documented behaviour, not a trace)
+  static unsigned long nth = 0;
+  if (!kept_errors.empty() && (++nth % 3) == 0) {
+    Ctx d;
+    d.tok = split(line);
+    xrl_error *old = kept_errors.back().first;
+    d.mode = 2; d.slot = old;
+    fflush(stderr);
+    int save = dup(2), nul = open("/dev/null", O_WRONLY);
+    if (save >= 0 && nul >= 0) dup2(nul, 2);
+    f(d);
+    fflush(stderr);
+    if (save >= 0) { dup2(save, 2); close(save); }
+    if (nul >= 0) close(nul);
+    if (d.slot != old) {            // replaced: the old object is gone (released by the library), the new one is ours now
+      if (d.slot) kept_errors.back().first = d.slot; else kept_errors.pop_back();
+      kept_errors.push_back({NULL, "slot-object-replaced"});
+    }
+    d.slot = NULL;
+    d.reset_args();
+  }
   return r;
 }
 
@@ -660,7 +683,7 @@ static void *tmain(void *p) {
     if (i >= a->lines->size()) continue;
     s = s * 1664525u + 1013904223u;
     if (a->yield_seed && (s >> 28) == 0) sched_yield();
-    a->out.push_back(run_simple((*a->lines)[i]));
+    a->out.push_back(run_simple((*a->lines)[i], i % 5 == 4));      // every fifth call without an error slot (as in the serial reference, mode simplens)
     if (((s >> 20) & 7) == 0) run_dirty((*a->lines)[i]);
   }
   live_workers--;
@@ -697,9 +720,10 @@ int main(int argc, char **argv) {
 #endif
       fputs(r.c_str(), out); fprintf(out, "\tH\t%ld\n", hd);
     }
-  } else if (mode == "simple") {
+  } else if (mode == "simple" || mode == "simplens") {
     if (getenv("XRLCALL_LOCALE") && !setlocale(LC_ALL, harness_locale())) setlocale(LC_ALL, "C");
-    for (auto &l : lines) { std::string r = run_simple(l); fputs(r.c_str(), out); fputc('\n', out); }
+    size_t li = 0;      // simplens: the serial reference of a threads run - every fifth call without an error slot, as there
+    for (auto &l : lines) { std::string r = run_simple(l, mode == "simplens" && li % 5 == 4); li++; fputs(r.c_str(), out); fputc('\n', out); }
   } else if (mode == "history") {
     // argv[4] = file with "addr size" lines (hex): data/bss/rodata ranges contributed by libxrl.a (from the link map)
     std::vector<Range> ranges;
@@ -738,7 +762,7 @@ int main(int argc, char **argv) {
     std::string loc1 = std::string(setlocale(LC_ALL, NULL)) + "|" + setlocale(LC_NUMERIC, NULL);
     char cwd1[4096]; if (!getcwd(cwd1, sizeof cwd1)) cwd1[0] = 0;
     bool errs_ok = true;
-    for (auto &ke : kept_errors) { if (errdesc(ke.first) != ke.second) errs_ok = false; xrl_error_free(ke.first); }
+    for (auto &ke : kept_errors) { if (errdesc(ke.first) != ke.second) errs_ok = false; if (ke.first) xrl_error_free(ke.first); }
     for (auto &r : res) { fputs(r.c_str(), out); fputc('\n', out); }
     mode_t um1 = umask(0); umask(um1);
     char *tok2 = strtok(NULL, ";");
